@@ -1,5 +1,7 @@
-import time
+import os, sys, time, pickle, traceback
 from sym import ir, kernels as K
+
+NPROC = int(os.environ.get("VERIF_NPROC", "14"))
 
 
 def setup(chk, tags=""):
@@ -10,13 +12,98 @@ def setup(chk, tags=""):
     return prog, base
 
 
-def run_kernels(chk, items):
-    """items: list of (label, thunk); engine errors in one kernel make the check inconclusive but do not stop the others"""
-    for label, fn in items:
-        t0 = time.time()
-        try:
-            fn()
-        except Exception as e:
-            import traceback
-            traceback.print_exc()
-            chk.note_inconclusive("kernel %s: engine error %r" % (label, e))
+def _delta(chk, mark):
+    return dict(obs=chk.obs[mark["obs"]:], violations=chk.violations[mark["viol"]:], known=chk.known[mark["known"]:],
+                inconclusive=chk.inconclusive[mark["inc"]:], functions=chk.functions, validated=chk.validated - mark["val"],
+                samples=chk.samples[mark["samples"]:])
+
+
+def _mark(chk):
+    return dict(obs=len(chk.obs), viol=len(chk.violations), known=len(chk.known), inc=len(chk.inconclusive), val=chk.validated, samples=len(chk.samples))
+
+
+def _apply(chk, d):
+    chk.obs.extend(d["obs"])
+    chk.violations.extend(d["violations"])
+    chk.known.extend(d["known"])
+    chk.inconclusive.extend(d["inconclusive"])
+    chk.functions.update(d["functions"])
+    chk.validated += d["validated"]
+    chk.samples.extend(d["samples"])
+
+
+def run_kernels(chk, items, parallel=None):
+    """items: list of (label, thunk).  Thunks record into chk.  Engine errors in one item make the check
+    inconclusive but do not stop the others.  With parallel=True each item runs in a forked child and its
+    recorded delta is merged back in item order."""
+    if parallel is None:
+        parallel = os.environ.get("VERIF_PARALLEL", "1") == "1" and len(items) > 1
+    if not parallel:
+        for label, fn in items:
+            try:
+                fn()
+            except Exception as e:
+                traceback.print_exc()
+                chk.note_inconclusive("kernel %s: engine error %r" % (label, e))
+        return
+    results = {}
+    running = {}   # pid -> (index, read fd)
+    pending = list(enumerate(items))
+    pending.reverse()
+
+    def reap(block):
+        import select
+        if not running:
+            return
+        fds = [fd for (_, fd) in running.values()]
+        r, _, _ = select.select(fds, [], [], None if block else 0)
+        for fd in r:
+            for pid, (idx, f) in list(running.items()):
+                if f == fd:
+                    chunks = []
+                    while True:
+                        b = os.read(fd, 1 << 20)
+                        if not b:
+                            break
+                        chunks.append(b)
+                    os.close(fd)
+                    os.waitpid(pid, 0)
+                    del running[pid]
+                    try:
+                        results[idx] = pickle.loads(b"".join(chunks))
+                    except Exception as e:
+                        results[idx] = dict(obs=[], violations=[], known=[], inconclusive=["kernel %s: worker died (%r)" % (items[idx][0], e)], functions={}, validated=0, samples=[])
+    while pending or running:
+        while pending and len(running) < NPROC:
+            idx, (label, fn) = pending.pop()
+            rfd, wfd = os.pipe()
+            sys.stdout.flush()
+            sys.stderr.flush()
+            pid = os.fork()
+            if pid == 0:
+                os.close(rfd)
+                mark = _mark(chk)
+                try:
+                    fn()
+                except Exception as e:
+                    traceback.print_exc()
+                    chk.note_inconclusive("kernel %s: engine error %r" % (label, e))
+                try:
+                    d = _delta(chk, mark)
+                    for o in d["obs"]:
+                        if hasattr(o, "goal_poly"):
+                            try:
+                                del o.goal_poly
+                            except Exception:
+                                pass
+                    data = pickle.dumps(d)
+                except Exception as e:
+                    data = pickle.dumps(dict(obs=[], violations=[], known=[], inconclusive=["kernel %s: result not picklable (%r)" % (label, e)], functions={}, validated=0, samples=[]))
+                with os.fdopen(wfd, "wb") as f:
+                    f.write(data)
+                os._exit(0)
+            os.close(wfd)
+            running[pid] = (idx, rfd)
+        reap(True)
+    for idx in sorted(results):
+        _apply(chk, results[idx])
